@@ -11,8 +11,8 @@ VARIANTS = [
     V("comment-continuation-without-bang", L, "                            \"comment\": \"!& \",", "                            \"comment\": \"& \",", "fires:C18.R4"),
     V("comment-before-omp", L, "        if self._omp.match(line):\n            return \"openmp_directive\"\n        if self._acc.match(line):\n            return \"openacc_directive\"\n        if self._comment.match(line):\n            return \"comment\"",
       "        if self._comment.match(line):\n            return \"comment\"\n        if self._omp.match(line):\n            return \"openmp_directive\"\n        if self._acc.match(line):\n            return \"openacc_directive\"", "fires:C18.R4"),
-    V("short-lines-stripped", L, "            else:\n                fortran_out += line + \"\\n\"\n\n        return fortran_out[:-1]",
-      "            else:\n                fortran_out += line.rstrip() + \"\\n\"\n\n        return fortran_out[:-1]", "fires:C18.R"),
+    V("short-lines-stripped", L, "            else:\n                fortran_out += line + \"\\n\"\n\n        # We add",
+      "            else:\n                fortran_out += line.rstrip() + \"\\n\"\n\n        # We add", "fires:C18.R"),
     V("first-emit-forgets-cend", L, "                    break_point = find_break_point(\n                        line, self._line_length-len(c_end), key_list)\n                except InternalError:",
       "                    break_point = find_break_point(\n                        line, self._line_length, key_list)\n                except InternalError:", "fires:C18.R1"),
     V("twin-le", L, "                    if len(line) < self._line_length:", "                    if len(line) <= self._line_length:", "silent"),
